@@ -1,4 +1,5 @@
 import ZorgVerif.Lemmas.NoteText
+import ZorgVerif.Lemmas.Move
 /-!
 # C10 — `note move` relocates exactly one note and loses nothing
 Model: `Model/NoteText.lean` — `FileManager.add_note` / `delete_note` on the list of lines of a page
@@ -38,6 +39,45 @@ theorem C10_dest (lines n : List Str) :
   · refine Or.inl ⟨hp, hk, ?_⟩
     exact headerOnly_last lines hh
   · exact Or.inr ⟨hb, he, ha⟩
+
+/-! ## The moved note carries its inherited metadata explicitly
+Model: `Model/Move.lean` — `_add_hidden_metadata` (every tag the index knows for the note and that is no word of
+its body, every property whose `key::` does not occur in the body, inserted after the ZID) and the text handed
+to `add_note`.  Hypotheses: the ZID occurs in the body and every occurrence ends a word (the indexed body starts
+with `ZID ` or `date ZID `), tag / property words contain no whitespace and no trailing punctuation. -/
+open ZorgVerif.Move in
+/-- every tag of the note is a word of the moved text — also those it only inherited from its page and sections -/
+theorem C10_tags_explicit (body zid : Str) (m : Move.Meta) (hz : zid ≠ []) (hzw : Move.NoWs zid)
+    (he : Move.ZidEndsWords zid body) (ho : Move.occurs zid body = true)
+    (hm : ∀ w ∈ Move.missingWords body m, Move.NoWs w ∧ w ≠ [])
+    (hs : ∀ w ∈ Move.missingWords body m, Move.stripTagWord w = w) :
+    (∀ t ∈ m.projects, Move.bodyHasTag (Move.addHiddenMetadata body zid m) ('+' :: t) = true) ∧
+    (∀ t ∈ m.areas,    Move.bodyHasTag (Move.addHiddenMetadata body zid m) ('#' :: t) = true) ∧
+    (∀ t ∈ m.contexts, Move.bodyHasTag (Move.addHiddenMetadata body zid m) ('@' :: t) = true) ∧
+    (∀ t ∈ m.people,   Move.bodyHasTag (Move.addHiddenMetadata body zid m) ('%' :: t) = true) :=
+  Move.tags_explicit body zid m hz hzw he ho hm hs
+
+/-- every property of the note is written in the moved text (keys are single words, as the lexer guarantees).
+Without that guard the statement is false: `Move.Counterexample.props_explicit_false` (a key with a space in it
+can be torn apart by the insertion). -/
+theorem C10_props_explicit_partial (body zid : Str) (m : Move.Meta) (hz : zid ≠ []) (hzw : Move.NoWs zid)
+    (he : Move.ZidEndsWords zid body) (ho : Move.occurs zid body = true)
+    (hm : ∀ w ∈ Move.missingWords body m, Move.NoWs w ∧ w ≠ [])
+    (hk : ∀ kv ∈ m.props, Move.NoWs kv.1) :
+    ∀ kv ∈ m.props, Move.occurs (kv.1 ++ "::".toList) (Move.addHiddenMetadata body zid m) = true :=
+  Move.props_explicit_noWs_partial body zid m hz hzw he ho hm hk
+
+/-- nothing of the body is lost: every word of the body is still a word of the moved text, and the moved text is
+the body with the missing words inserted after the ZID -/
+theorem C10_body_words_kept (body zid : Str) (m : Move.Meta) (hz : zid ≠ []) (hzw : Move.NoWs zid)
+    (he : Move.ZidEndsWords zid body) :
+    (∀ w ∈ Move.splitWs body, w ∈ Move.splitWs (Move.addHiddenMetadata body zid m)) ∧
+    (Move.addHiddenMetadata body zid m = body ∨
+      Move.addHiddenMetadata body zid m = Rename.replaceAll zid (zid ++ Move.extras body m) body) :=
+  ⟨Move.words_kept body zid m hz hzw he, (Move.hidden_only_inserts body zid m hz).imp id (·.2)⟩
+
+example : Move.movedText 'o' (some "P1".toList) (some 'x') "240101#00 alpha #a".toList "240101#00".toList
+    ⟨["p".toList], ["a".toList, "b".toList], [], [], [("k".toList, "v".toList)]⟩ = "x 240101#00 +p #b k::v alpha #a\n".toList := by decide +kernel
 
 /-! Non-vacuity: the repaired corner cases, evaluated by the kernel -/
 example : addNote ["# B".toList, [], "- 240102#00 last line of b".toList] ["- 240101#01 moved".toList, []] =
